@@ -115,7 +115,9 @@ def isobaric(c):
     n, T, P = c["natoms"], c["T"], c["P"]
     L = ((n + 1) * kB * T / P) ** (1 / 3)
     rng = np.random.default_rng(1)
-    atoms = Atoms("Ar" * n, positions=rng.uniform(0, L, (n, 3)), cell=[L, L, L], pbc=True)
+    # a left-handed set of cell vectors (negative determinant, positive volume) is a legal ASE cell
+    cell = [[0, L, 0], [L, 0, 0], [0, 0, L]] if c.get("left_handed") else [L, L, L]
+    atoms = Atoms("Ar" * n, positions=rng.uniform(0, L, (n, 3)), cell=cell, pbc=True)
     atoms.calc = Zero()
     mc = Isobaric(atoms, temperature=T, pressure=P, seed=c["seed"], max_cycles=1, logfile=None)
     mc.add_move(CellMove(IsotropicDeformation(c["max_value"])), name="c")
@@ -141,10 +143,13 @@ def grand(c):
 
     def mu_for(T):
         lam = math.sqrt(crit._hplanck ** 2 / (2 * np.pi * m * kB * T / crit._Nav * 1e-3 * crit._e)) * 1e10
-        return kB * T * math.log(a_target * lam ** 3 / L ** 3)
+        return kB * T * math.log(a_target * lam ** 3 / (c.get("acc_frac", 1.0) * L ** 3))
     mu = mu_for(T)
     mc = GrandCanonical(atoms, ex, temperature=T, chemical_potential=mu, number_of_exchange_particles=0, seed=c["seed"], max_cycles=1, logfile=None)
     mc.add_move(ExchangeMove(np.array([], dtype=int), TranslationRotation() if mol else Translation()), name="e")
+    if c.get("acc_frac"):
+        # only part of the box is accessible to the gas (a pore, a slab): a public setting, made after construction; the mean follows V_acc
+        mc.accessible_volume = c["acc_frac"] * L ** 3
     ns, frac, cos, phi = [], [], [], []
     size = len(ex)
     for i, _ in enumerate(mc.srun(c["steps"])):
